@@ -996,7 +996,9 @@ def _mask(sig, num_args, hide_args, hide_kwargs,
             raise ValueError(
                 'Named parameter {0!r} not found in signature: {1}'
                 .format(kwarg_name, sig))
-        elif partial_mode:
+        elif partial_mode and not (
+                varargs and varargs.name == kwarg_name
+                or varkwargs.name == kwarg_name):
             kwoargs[kwarg_name] = UpgradedParameter(
                 kwarg_name, _util.funcsigs.Parameter.KEYWORD_ONLY,
                 default=named_args[kwarg_name])
